@@ -164,3 +164,35 @@ def report(json_path, out_path):
 
 if __name__ == '__main__' and sys.argv[1] == 'report':
     report(sys.argv[2], sys.argv[3])
+
+
+def matrix(json_path, out_path):
+    res = json.load(open(json_path))
+    ids = [f'C{i:02d}' for i in range(1, 21)]
+    lines = ['# Cross-detection matrix (quick tier, VERIF_SEED=1)', '',
+             'Rows: seeded changes (the property each was written to break is marked `*`). `D` = detected (exit 1 with a VIOLATION line), '
+             '`.` = not detected, `E` = harness error, blank = not run.', '',
+             '| change | ' + ' | '.join(i[1:] for i in ids) + ' |', '|---|' + '---|' * len(ids)]
+    for name in sorted(res):
+        r = res[name]
+        if not isinstance(r, dict) or 'error' in r:
+            continue
+        d = os.path.join(HERE, 'seeded', name)
+        if not os.path.isdir(d):
+            d = os.path.join(HERE, 'mutants', name)
+        try:
+            own = json.load(open(os.path.join(d, 'meta.json'))).get('property')
+        except Exception:
+            own = None
+        cells = []
+        for i in ids:
+            v = r.get(i, {}).get('verdict')
+            c = {'DETECTED': 'D', 'missed': '.', 'HARNESS-ERROR': 'E'}.get(v, ' ')
+            cells.append(c + ('*' if i == own else ''))
+        lines.append(f'| {name} | ' + ' | '.join(cells) + ' |')
+    open(out_path, 'w').write('\n'.join(lines) + '\n')
+    print('written', out_path)
+
+
+if __name__ == '__main__' and sys.argv[1] == 'matrix':
+    matrix(sys.argv[2], sys.argv[3])
